@@ -457,6 +457,46 @@ def shifts_positions(s, allp, body, fb=None):
     return False
 
 
+def _retains(p, flavour):
+    pat = r"\.flat_ops\(" if flavour == "flat" else r"\.ops\(\.bin_ops\("
+    return [e for e in p.events if e[0] == "call" and e[1].rsplit("::", 1)[-1] == "retain" and len(e[2]) == 2 and re.search(pat, show(e[2][0])) and isinstance(e[2][1], Closure)]
+
+
+def _retain_idiom(fb, p, rets, flavour):
+    rs = _retains(p, flavour)
+    used_terms = set()
+    for q in rets:
+        for e in _retains(q, flavour):
+            used_terms |= {show(v) for v in e[2][1].caps.values()}
+    if not rs:
+        # skipped: only under `used.is_empty()`
+        for d in p.decisions:
+            c = rel.canon(d[1])
+            if isinstance(c, App) and c.fn.endswith("::is_empty") and d[2] is True and show(c.args[0]) in used_terms:
+                return True, ""
+        return False, "no retain and no `used.is_empty()` on this path"
+    if len(rs) != 1:
+        return False, "%d retain calls" % len(rs)
+    cl = rs[0][2][1]
+    cnt = [k for k, v in cl.caps.items() if rel.const_int(v) == 0]
+    oth = [k for k in cl.caps if k not in cnt]
+    cb = fb.bodies.get(cl.path)
+    if len(cnt) != 1 or len(oth) != 1 or cb is None:
+        return False, "retain predicate does not capture (counter starting at 0, record of used operators)"
+    env = Closure(cl.path, {cnt[0]: Sym("CNT"), oth[0]: Sym("USED")})
+    ps = [q for q in Interp(fb, _P()).run(cb, [env, Sym("item")]) if q.status != "unreachable"]
+    if len(ps) != 1 or ps[0].status != "return":
+        return False, "retain predicate is not straight-line"
+    r = rel.canon(ps[0].result)
+    wr = [w for w in ps[0].events if w[0] == "write_opaque"]
+    okp = isinstance(r, App) and r.fn == "unop:Not" and isinstance(r.args[0], App) and r.args[0].fn.endswith("::contains") and \
+        [rel.cstr(x) for x in r.args[0].args] == ["USED", "CNT"]
+    okw = len(wr) == 1 and rel.cstr(wr[0][1]) == "CNT" and rel.cstr(wr[0][3]) in ("binop:Add(CNT, 1_usize)", "binop:AddWithOverflow(CNT, 1_usize)")
+    if okp and okw:
+        return True, ""
+    return False, "retain predicate is not `!used.contains(&i)` with i counting the calls: %s / %s" % (show(r)[:80], [(show(w[1]), show(w[3])) for w in wr][:2])
+
+
 def check_after(chk, fb, body, flavour, info):
     """R02.5: exactly the used operators are dropped afterwards."""
     name = "FlatEx::compile" if flavour == "flat" else "DeepEx::compile"
@@ -476,6 +516,14 @@ def check_after(chk, fb, body, flavour, info):
                     vals.append(e[3])
                 if flavour == "deep" and projs == [("f", "bin_ops"), ("f", "ops")]:
                     vals.append(e[3])
+        if not vals:
+            # in-place idiom: ops.retain(|_| { let keep = !used.contains(&i); i += 1; keep }), possibly skipped when nothing was used
+            okr, whyr = _retain_idiom(fb, p, rets, flavour)
+            if okr:
+                n += 1
+                continue
+            good, why = False, "operator list is written 0 times on a path" + (" (%s)" % whyr if whyr else "")
+            break
         if len(vals) != 1:
             good, why = False, "operator list is written %d times on a path" % len(vals)
             break
